@@ -291,6 +291,60 @@ pub fn run_case(id: &str, toks: &[&str]) -> String {
     let _ = std::fs::remove_dir_all(&dir);
     let _ = std::fs::remove_file(&link);
     std::fs::create_dir_all(&dir).unwrap();
+    let mut out: Vec<String> = vec![];
+    if let Some(cr) = ops.iter().position(|t| *t == "CR") {
+        // a kill: the operations up to CR run in a child process that dies at the armed kill point; what it
+        // could still report is taken over, the rest is "x"; the operations after CR run here, on what it left
+        let seg1: Vec<&str> = ops[..cr].iter().copied().filter(|t| !t.is_empty()).collect();
+        let exe = std::env::current_exe().unwrap();
+        let child = std::process::Command::new(exe)
+            .arg("--segment")
+            .arg(&dir)
+            .arg(&link)
+            .arg(t0.to_string())
+            .args(&seg1)
+            .env("VERIF_SCRATCH", scratch_root().join(format!("child_{id}")))
+            .stdout(std::process::Stdio::piped())
+            .stderr(std::process::Stdio::null())
+            .output()
+            .expect("child process");
+        let text = String::from_utf8_lossy(&child.stdout).to_string();
+        let mut got: Vec<String> = text.lines().filter(|l| l.starts_with("@ ")).map(|l| l[2..].to_string()).collect();
+        let _ = std::fs::remove_dir_all(scratch_root().join(format!("child_{id}")));
+        got.truncate(seg1.len());
+        while got.len() < seg1.len() {
+            got.push("x".to_string());
+        }
+        out.extend(got);
+        out.push("r0".to_string()); // CR
+        exec_ops(&dir, &link, t0, &ops[cr + 1..], &mut |o| out.push(o));
+    } else {
+        exec_ops(&dir, &link, t0, ops, &mut |o| out.push(o));
+    }
+    let _ = std::fs::remove_dir_all(&dir);
+    let _ = std::fs::remove_file(&link);
+    out.join(" ")
+}
+
+/// child mode: "--segment <dir> <link> <t0> ops..."; every observation is printed at once
+pub fn run_segment(args: &[String]) {
+    use std::io::Write;
+    let dir = PathBuf::from(&args[0]);
+    let link = PathBuf::from(&args[1]);
+    let t0: i64 = args[2].parse().unwrap();
+    let ops: Vec<&str> = args[3..].iter().map(String::as_str).collect();
+    let stdout = std::io::stdout();
+    exec_ops(&dir, &link, t0, &ops, &mut |o| {
+        let mut g = stdout.lock();
+        let _ = writeln!(g, "@ {o}");
+        let _ = g.flush();
+    });
+}
+
+/// Runs operations on the given directory (which is left as it is).
+pub fn exec_ops(dir: &Path, link: &Path, t0: i64, ops: &[&str], emit: &mut dyn FnMut(String)) {
+    let dir = dir.to_path_buf();
+    let link = link.to_path_buf();
     reset_table();
     set_time(t0);
     {
@@ -302,7 +356,6 @@ pub fn run_case(id: &str, toks: &[&str]) -> String {
     let _ = take_errors();
     let mut errs: Vec<String> = vec![];
     let mut live: Option<Live> = None;
-    let mut out: Vec<String> = vec![];
     install_sched();
     CL_DONE.store(CL_SENT.load(Ordering::SeqCst), Ordering::SeqCst);
     let mut exits = CL_EXIT.load(Ordering::SeqCst);
@@ -455,14 +508,6 @@ pub fn run_case(id: &str, toks: &[&str]) -> String {
                 fsctl().lock().unwrap().kill = Some(p[1].parse().unwrap());
                 "r0".to_string()
             }
-            "CR" => {
-                // the dead process is gone: forget the writer without running any destructor
-                if let Some(l) = live.take() {
-                    std::mem::forget(l);
-                }
-                fsctl().lock().unwrap().kill = None;
-                "r0".to_string()
-            }
             "SN" => {
                 errs.extend(take_errors());
                 snapshot(&dir, &link, &errs)
@@ -475,7 +520,7 @@ pub fn run_case(id: &str, toks: &[&str]) -> String {
         exits = CL_EXIT.load(Ordering::SeqCst);
         errs.extend(take_errors());
         scan_dir(&dir);
-        out.push(o);
+        emit(o);
     }
     if let Some(l) = live.take() {
         let _ = catch_unwind(AssertUnwindSafe(move || {
@@ -483,9 +528,6 @@ pub fn run_case(id: &str, toks: &[&str]) -> String {
             drop(l.arc);
         }));
     }
-    let _ = std::fs::remove_dir_all(&dir);
-    let _ = std::fs::remove_file(&link);
-    out.join(" ")
 }
 
 /// Case kind "tryfrom": FileSpec::try_from(path) denotes exactly that path, and a writer built from it writes there.
